@@ -4,7 +4,7 @@
    url.QueryEscape), Model/JsEscape.v (template.JSEscapeString, json.Marshal of
    a string); decoders: Spec/Codec.v, Spec/Html.v. *)
 From Soy Require Import Model.Bytes Generated.Tables Model.Utf8 Model.Num Model.Outcome Model.Values Model.Escape Model.Directives Model.JsEscape
-  Model.JsonEncode Spec.Html Spec.Codec Spec.Json Proofs.Utf8Proofs Proofs.CodecProofs Proofs.CodecJsPair Proofs.CodecJsonNum Proofs.CodecJson
+  Model.JsonEncode Spec.Html Spec.Codec Spec.Json Proofs.Utf8Proofs Proofs.CodecProofs Proofs.CodecJsPair Proofs.CodecJsonNum Proofs.CodecJson Proofs.CodecJsonInert
   Model.JsDirectives Spec.JsUnits Proofs.CodecJsUnits.
 Open Scope N_scope.
 
@@ -237,6 +237,11 @@ Print Assumptions C16_json_roundtrip_any_tree.
 Theorem C16_json_encode_total : forall nn v, json_finite v -> exists s, json_encode nn v = Ok s.
 Proof. exact json_encode_total. Qed.
 Print Assumptions C16_json_encode_total.
+
+(* HTML-safe at any depth: no raw < > & in the text of any value *)
+Theorem C16_json_inert : forall nn v s, json_encode nn v = Ok s -> Forall html_inert s.
+Proof. exact json_encode_inert. Qed.
+Print Assumptions C16_json_inert.
 
 (* numbers: an int64 (indeed any integer) and a float of the exact printing domain read back exactly *)
 Theorem C16_json_number_int : forall z rest, stop_num rest -> json_number (dec_of_Z z ++ rest) = Some (num_of_Z z, rest).
